@@ -1,7 +1,7 @@
 (* Extraction of the `lowerbool` component's executable model (ExtrOcamlBasic + ExtrOcamlString:
    Coq strings become OCaml char lists; nat / Z / positive stay inductive). *)
-From Coq Require Import ExtrOcamlBasic ExtrOcamlString.
+From Coq Require Import ZArith ExtrOcamlBasic ExtrOcamlString.
 From HidV Require Import GenTables OpTables LowerBoolModel.
 
 Extraction "../ocaml/hidlower_core.ml"
-  lower_branch if_block value_lowering value_lowering_keep print_aline is_you_env add_label.
+  lower_branch if_block value_lowering value_lowering_keep print_aline is_you_env with_top add_label Z.add Z.mul Z.opp.
